@@ -40,8 +40,9 @@ template <class G> void concCase(size_t n, const std::vector<std::string> &ops, 
     G gm(n); for (auto &op : ops) applyOp(gm, op);
     const G &g = gm;
     std::vector<std::string> ref(NCALLS);
-    for (int k = 0; k < NCALLS; k++) ref[k] = readerCall(g, k, s, t);
-    emitAsStep(g);
+    const G refg(gm);           // reference on a copy: the shared object is met "cold" by the reader threads
+    for (int k = 0; k < NCALLS; k++) ref[k] = readerCall(refg, k, s, t);
+    emitAsStep(refg);
     std::atomic<int> go(0); std::atomic<long> bad(0);
     std::vector<std::thread> th;
     for (unsigned id = 0; id < T; id++)
